@@ -44,13 +44,14 @@ PROPS['C01'] = dict(
          + [R('h_graph_n3', covers=[1, 2]), R('h_graph_n3', 'fa', 'release', T, covers=[1, 2])]
          + [R('h_fin_n3', covers=[1]), R('h_panic_n4_q', covers=[1, 11]), R('h_panic_n3', 'fa', 'release', covers=[1])]
          + both('h_graph_n3_untraced', tiers=T, covers=[1]) + [R('h_graph_n3_s2', tiers=T, covers=[1])]
+         + [R('h_prog_k3', covers=[1]), R('h_prog_k4', tiers=T, covers=[1]), R('h_prog_k4', 'fa', 'release', T, covers=[1]), R('h_prog_k5', tiers=T, covers=[1])]
          + twin('h_graph_twin'),
 )
 PROPS['C02'] = dict(
     bounds=GRAPH_BOUNDS + "; panic-free programs; quiescence must be reached within 3-4 collect_cycles() calls (obligation x23)",
     outside=OUTSIDE_COMMON,
     runs=[R('h_graph_n3', 'fa', 'release', covers=[1, 2]), R('h_graph_n2', 'none', 'release', covers=[1, 2]), R('h_graph_n2', 'faw', covers=[1, 2])]
-         + [R('h_fin_n2', covers=[1, 2]), R('h_fin_weak_n2', 'faw', covers=[1]), R('h_chain12', covers=[1]), R('h_chain12', 'fa', 'release', covers=[1])]
+         + [R('h_fin_n2', covers=[1, 2]), R('h_fin_weak_n2', 'faw', covers=[1]), R('h_chain12', covers=[1]), R('h_chain12', 'fa', 'release', covers=[1]), R('h_prog_k3', 'fa', 'release', covers=[1]), R('h_prog_k4', 'none', tiers=T, covers=[1])]
          + [R('h_fin_n3_stash', tiers=T, covers=[1]), R('h_fin_n2', 'fa', 'release', T, covers=[1, 2]), R('h_graph_n3_untraced', tiers=T, covers=[1])]
          + twin('h_fin_twin'),
 )
@@ -68,8 +69,8 @@ PROPS['C04'] = dict(
     bounds=GRAPH_BOUNDS + "; strong_count() compared with the model count after every operation for ALL phantom counts (one solver variable per object)",
     outside=OUTSIDE_COMMON,
     runs=both('h_graph_n2', covers=[1, 2]) + [R('h_graph_n3', 'fa', 'release', covers=[1, 2])]
-         + [R('h_sat_strong', 'faw', covers=[1, 2]), R('h_panic_n2', covers=[1]), R('h_unwrap', covers=[1, 2]), R('h_nest_n2', covers=[1]), R('h_panic_n3', covers=[1])]
-         + [R('h_panic_n3_hist', tiers=T, covers=[1])]
+         + [R('h_sat_strong', 'faw', covers=[1, 2]), R('h_panic_n2', covers=[1]), R('h_unwrap', covers=[1, 2]), R('h_nest_n2', covers=[1]), R('h_panic_n3', covers=[1]), R('h_prog_k3', covers=[1])]
+         + [R('h_panic_n3_hist', tiers=T, covers=[1]), R('h_prog_k4', tiers=T, covers=[1])]
          + twin('h_graph_twin'),
 )
 PROPS['C05'] = dict(
@@ -105,8 +106,8 @@ PROPS['C08'] = dict(
     outside=OUTSIDE_COMMON,
     runs=[R('h_weak_prog_n2', 'faw', covers=[1, 2]), R('h_weak_cb_n2', 'faw', covers=[1, 2]), R('h_weak_cb_n2', 'faw', 'release', T, covers=[1, 2])]
          + [R('h_weak_cb_n2', 'w', covers=[1]), R('h_unwrap_weak', 'faw', covers=[1, 2]), R('h_clean_n2', 'fawc', tiers=T, covers=[1])]
-         + [R('h_weak_helper', 'faw', covers=[1, 2]), R('h_weak_helper', 'faw', 'release', covers=[1, 2]), R('h_sat_weak', 'faw', 'release', covers=[1, 2]), R('h_nest_n2', 'faw', covers=[1, 3])]
-         + [R('h_weak_cb_ring3', 'faw', tiers=T, covers=[1, 2])]
+         + [R('h_weak_helper', 'faw', covers=[1, 2]), R('h_weak_helper', 'faw', 'release', covers=[1, 2]), R('h_sat_weak', 'faw', 'release', covers=[1, 2]), R('h_nest_n2', 'faw', covers=[1, 3]), R('h_prog_weak_k3', 'faw', covers=[1])]
+         + [R('h_prog_weak_k4', 'faw', tiers=T, covers=[1]), R('h_weak_cb_ring3', 'faw', tiers=T, covers=[1, 2])]
          + twin('h_weak_twin', 'faw'),
 )
 PROPS['C09'] = dict(
@@ -115,7 +116,7 @@ PROPS['C09'] = dict(
     outside=OUTSIDE_COMMON,
     runs=both('h_weak_prog_n2', 'faw', covers=[1, 2]) + [R('h_weak_prog_n1', 'faw', covers=[1, 2]), R('h_sat_weak', 'faw', covers=[1, 2])]
          + [R('h_unwrap_weak', 'faw', covers=[1, 2]), R('h_weak_prog_n2', 'w', covers=[1, 2])] + both('h_cyclic', 'faw', covers=[1, 2, 3])
-         + [R('h_sat_weak', 'faw', 'release', covers=[1, 2]), R('h_nest_n2', 'faw', covers=[1, 3])]
+         + [R('h_sat_weak', 'faw', 'release', covers=[1, 2]), R('h_nest_n2', 'faw', covers=[1, 3]), R('h_prog_weak_k3', 'faw', covers=[1]), R('h_prog_weak_k4', 'faw', tiers=T, covers=[1])]
          + twin('h_weak_twin', 'faw'),
 )
 PROPS['C10'] = dict(
@@ -135,7 +136,7 @@ PROPS['C11'] = dict(
            "set is predicted for finalizer-free programs of N<=3 nodes",
     outside=OUTSIDE_COMMON,
     runs=both('h_buffer_n3', covers=[1]) + [R('h_buffer_n3', 'none', covers=[1]), R('h_unwrap', covers=[1, 2]), R('h_nest_n2', covers=[1])]
-         + [R('h_fin_n2', covers=[1, 2]), R('h_panic_n3', covers=[1]), R('h_cyclic', 'faw', covers=[1, 2, 3])]
+         + [R('h_fin_n2', covers=[1, 2]), R('h_panic_n3', covers=[1]), R('h_cyclic', 'faw', covers=[1, 2, 3]), R('h_prog_k3', covers=[1]), R('h_prog_k3', 'none', covers=[1]), R('h_prog_k4', tiers=T, covers=[1])]
          + twin('h_graph_twin'),
 )
 PROPS['C12'] = dict(
